@@ -31,6 +31,8 @@ func genC04Case(t *rapid.T) *StructCase {
 		return genSizeRule(t, m, "leaf") + mg.next(t)
 	}
 	ty, _ := g.genStruct(0)
+	// group clauses name their object by path too
+	walkTypes(&ty, func(st *desc.T) { addGroups(t, st, "valid") })
 	c := &StructCase{Root: desc.Ptr(ty), Val: desc.V{E: []desc.V{g.genValueFor(ty, 0)}}}
 	if rapid.IntRange(0, 3).Draw(t, "top") == 0 {
 		c.Root = desc.Map(desc.Scalar("string"), ty)
